@@ -71,6 +71,28 @@ func runAll(f *flags, w *propWork, dir string) []*oblResult {
 			r.Result, r.Solver, r.Ms, r.output, r.PerSolver = res, solver, ms, out, per
 			if res == "sat" {
 				r.model = parseValues(out)
+				// prefer a small counterexample: bound the lengths of the input slices and strings
+				var lens []string
+				for _, v := range q.Values {
+					if strings.HasPrefix(v, "(sl_len ") {
+						lens = append(lens, v)
+					}
+				}
+				if len(lens) > 0 && !q.Ob.mustSat {
+					for _, bound := range []int{2, 3, 4} {
+						extra := ""
+						for _, l := range lens {
+							extra += fmt.Sprintf("(assert (<= %s %d))\n", l, bound)
+						}
+						small := strings.Replace(q.Script, "(check-sat)", extra+"(check-sat)", 1)
+						res2, _, _, out2, _ := runSolvers(dir, r.Name+"_small", small, 10, false, f.seed)
+						if res2 == "sat" {
+							r.model = parseValues(out2)
+							r.output = out2
+							break
+						}
+					}
+				}
 			}
 			if r.q.Ob.mustSat {
 				switch res {
